@@ -128,7 +128,7 @@ func c02Value(r *Rand, o *Opt, class string) (string, bool) {
 
 func c02Cfg() *DeclCfg {
 	return &DeclCfg{
-		MaxDepth: 2, MaxFan: 2, PCmds: 60, Types: typesAll, OptsMin: 1, OptsMax: 4, SubGroupsMax: 1, NestMax: 1,
+		MaxDepth: 2, MaxFan: 2, PCmds: 60, Types: typesAll, OptsMin: 1, OptsMax: 4, SubGroupsMax: 1, PInline: 20, NestMax: 1,
 		PNamespace: 40, PShortOnly: 10, PLongOnly: 10, NonASCII: true, PClash: 0,
 		PDefault: 10, PChoices: 8, POptional: 8, PBase: 20, PNoUnquote: 12,
 		PInitial: 20, PPos: 30, PosMax: 2, PRest: 50, PExec: 20, PByTag: 50, PSubOptional: 40, PAliases: 30,
